@@ -30,6 +30,7 @@ type Program struct {
 	Files     []string // source files of the loaded root packages
 	ProtoRoot string
 	MergeFns  map[string]bool
+	fullDone  map[string]bool
 	mu        sync.Mutex
 }
 
@@ -77,6 +78,20 @@ func Load(dir string, overlay map[string][]byte, patterns []string) (*Program, e
 	registerIntrinsics(p)
 	p.LoadS = time.Since(t0).Seconds()
 	return p, nil
+}
+
+// firstFull reports (once per obligation name) that a full model should be extracted.
+func (p *Program) firstFull(name string) bool {
+	p.mu.Lock()
+	defer p.mu.Unlock()
+	if p.fullDone == nil {
+		p.fullDone = map[string]bool{}
+	}
+	if p.fullDone[name] {
+		return false
+	}
+	p.fullDone[name] = true
+	return true
 }
 
 func (p *Program) shouldInterpret(fn *ssa.Function) bool {
@@ -200,6 +215,7 @@ type HarnessResult struct {
 	FeasUnknown  int                   `json:"feasibility_unknown"`
 	Samples      []string              `json:"samples,omitempty"`
 	ForkSites    map[string]int        `json:"fork_sites,omitempty"`
+	SlowSites    map[string]float64    `json:"slow_sites,omitempty"`
 }
 
 type Hook func(x *Exec)
@@ -208,11 +224,19 @@ type Hook func(x *Exec)
 func (p *Program) RunHarness(fn *ssa.Function, cfg *Config, workers int) *HarnessResult {
 	t0 := time.Now()
 	res := &HarnessResult{Name: fn.Name(), Status: map[string]int{}, Obligations: map[string]*ObSummary{},
-		Funcs: map[string]int{}, Summaries: map[string]int{}, Assumes: map[string]int{}, Queries: map[string]int{}, ForkSites: map[string]int{}}
+		Funcs: map[string]int{}, Summaries: map[string]int{}, Assumes: map[string]int{}, Queries: map[string]int{}, ForkSites: map[string]int{}, SlowSites: map[string]float64{}}
 	stats := smt.NewStats()
 	var mu sync.Mutex
 	cond := sync.NewCond(&mu)
 	work := [][]Decision{nil}
+	if cfg.DebugPath != nil {
+		var pre []Decision
+		for _, v := range cfg.DebugPath {
+			pre = append(pre, Decision{Val: v, N: 2, Fixed: true})
+		}
+		work = [][]Decision{pre}
+		workers = 1
+	}
 	active := 0
 	effects := map[string]bool{}
 	notes := map[string]bool{}
@@ -225,6 +249,11 @@ func (p *Program) RunHarness(fn *ssa.Function, cfg *Config, workers int) *Harnes
 			defer w.close()
 			for {
 				mu.Lock()
+				if cfg.BudgetS > 0 && time.Since(t0).Seconds() > float64(cfg.BudgetS) && len(work) > 0 {
+					res.Inconclusive = append(res.Inconclusive, PathRecord{Status: "unwind", Msg: fmt.Sprintf("time budget of %ds exhausted with %d paths still to explore", cfg.BudgetS, len(work))})
+					res.Status["budget"] += len(work)
+					work = nil
+				}
 				for len(work) == 0 && active > 0 {
 					cond.Wait()
 				}
@@ -290,6 +319,9 @@ func (p *Program) RunHarness(fn *ssa.Function, cfg *Config, workers int) *Harnes
 				for k, v := range x.ForkSites {
 					res.ForkSites[k] += v
 				}
+				for k, v := range x.SlowSites {
+					res.SlowSites[k] += v
+				}
 				for _, e := range x.Effects {
 					if e.Kind == "nondeterminism" || e.Kind == "map-range" {
 						effects[e.Kind+": "+e.Name] = true
@@ -300,6 +332,12 @@ func (p *Program) RunHarness(fn *ssa.Function, cfg *Config, workers int) *Harnes
 				}
 				for _, e := range x.S.Errors {
 					notes["solver: "+e] = true
+				}
+				if cfg.DebugPath != nil {
+					fmt.Printf("PATH END %s %s\n", exit.Status, exit.Msg)
+					mu.Unlock()
+					cond.Broadcast()
+					continue
 				}
 				// schedule alternatives
 				for i := len(prefix); i < len(x.Trace); i++ {
@@ -347,7 +385,11 @@ func (p *Program) runPath(fn *ssa.Function, cfg *Config, w *Worker, prefix []Dec
 	x = &Exec{P: p, B: b, Cfg: cfg, prefix: prefix, W: w,
 		gl: map[*ssa.Global]*Object{}, initFr: map[*ssa.Package]*Frame{},
 		Reached: map[string]bool{}, Funcs: map[string]int{}, Summ: map[string]int{}, Assumes: map[string]int{},
-		ForkSites: map[string]int{}, errIDs: map[string]int{}, lenAxiom: map[int]bool{}, pow10Of: map[int]*smt.Term{}}
+		ForkSites: map[string]int{}, SlowSites: map[string]float64{}, errIDs: map[string]int{}, lenAxiom: map[int]bool{}, pow10Of: map[int]*smt.Term{}, constMemo: map[int]*smt.Term{}, localMerge: map[string]bool{}}
+	if cfg.Debug && cfg.Transcript != "" {
+		f, _ := os.Create(cfg.Transcript)
+		proc.Log = f
+	}
 	x.S = smt.NewSession(proc, b)
 	x.Env = newEnv(x)
 	defer func() {
